@@ -189,6 +189,7 @@ type loopInput struct {
 	RetryCount int          `json:"retryCount"`
 	OnlyOnce   bool         `json:"onlyOnce"`
 	Force      bool         `json:"force"` // storage_force_snapshot_interval = 1 h; "interval" steps let it pass
+	RecvOnly   bool         `json:"receiveOnly"`
 	Behaviours [][]loopStep `json:"behaviours"`
 }
 
@@ -289,7 +290,7 @@ func (lr *loopRunner) newSyncer() error {
 	lr.updates = make(chan snapshot.Update, 8)
 	ch := lr.updates
 	h.OtherUpdateSource = func() <-chan snapshot.Update { return ch }
-	s, err := syncer.New("default", in.Env, lr.fb, c, c.LMDBs["default"], syncer.Options{Hooks: h})
+	s, err := syncer.New("default", in.Env, lr.fb, c, c.LMDBs["default"], syncer.Options{Hooks: h, ReceiveOnly: lr.in.RecvOnly})
 	if err != nil {
 		return err
 	}
@@ -946,7 +947,16 @@ func runLoopBehaviour(R *Result, in loopInput, beh []loopStep, bi int) error {
 			lr.prevNewest = img
 		}
 		// C09 on the real state
-		if a.Name == "run" && a.To == "loop.sleep" && !st.WaitingOwn {
+		if in.RecvOnly { // C12: a receive-only instance never stores or deletes anything
+			lr.fb.mu.Lock()
+			stores, deletes := lr.fb.stores, len(lr.fb.deleted)
+			lr.fb.mu.Unlock()
+			if stores != 0 || deletes != 0 {
+				bad("C12", "receive-only", si, nil, "a receive-only instance performed %d Store and %d Delete calls", stores, deletes)
+				return nil
+			}
+		}
+		if a.Name == "run" && a.To == "loop.sleep" && !st.WaitingOwn && !in.RecvOnly {
 			var img map[string]Ver
 			if newest != "" {
 				img, _ = w.DecodeImage(1, newest)
